@@ -312,3 +312,66 @@ func IDL(s *Shape, wrap bool) string {
 	}
 	return "namespace go verif\n" + strings.Join(defs, "") + fmt.Sprintf("service Svc {\n  %s M(1: %s req)\n}\n", root, root)
 }
+
+// IDLRoots renders one IDL with a wrapper struct Root<i> {1: <shape i> f1} per root and a service with
+// one method M<i>(1: Root<i> req) per root. Sub-shapes shared BY POINTER between roots are declared once,
+// so the parsed descriptors of the roots share those sub-descriptors.
+func IDLRoots(roots []*Shape) string {
+	var defs []string
+	names := map[*Shape]string{}
+	var tname func(s *Shape) string
+	tname = func(s *Shape) string {
+		switch s.T {
+		case BOOL:
+			return "bool"
+		case BYTE:
+			return "byte"
+		case I16:
+			return "i16"
+		case I32:
+			return "i32"
+		case I64:
+			return "i64"
+		case DOUBLE:
+			return "double"
+		case STRING:
+			if s.Binary {
+				return "binary"
+			}
+			return "string"
+		case LIST:
+			return "list<" + tname(s.Elem) + ">"
+		case SET:
+			return "set<" + tname(s.Elem) + ">"
+		case MAP:
+			return "map<" + tname(s.Key) + "," + tname(s.Elem) + ">"
+		case STRUCT:
+			if n, ok := names[s]; ok {
+				return n
+			}
+			n := fmt.Sprintf("S%d", len(names))
+			names[s] = n
+			var body []string
+			for _, f := range s.Fields {
+				r := ""
+				switch f.Req {
+				case 1:
+					r = "required "
+				case 2:
+					r = "optional "
+				}
+				body = append(body, fmt.Sprintf("  %d: %s%s %s", f.ID, r, tname(f.S), f.FName()))
+			}
+			defs = append(defs, fmt.Sprintf("struct %s {\n%s\n}\n", n, strings.Join(body, "\n")))
+			return n
+		}
+		panic("bad shape")
+	}
+	var methods []string
+	for i, r := range roots {
+		t := tname(r)
+		defs = append(defs, fmt.Sprintf("struct Root%d {\n  1: %s f1\n}\n", i, t))
+		methods = append(methods, fmt.Sprintf("  void M%d(1: Root%d req)", i, i)) // void: a struct response would re-parse the shared structs for the Response target
+	}
+	return "namespace go verif\n" + strings.Join(defs, "") + "service Svc {\n" + strings.Join(methods, "\n") + "\n}\n"
+}
